@@ -329,6 +329,8 @@ def _complete(line, cursor):
     texts.  Exceptions are returned as ('exc', text)."""
     st = _state
     comp = st["completer"]
+    if comp.parse(line, cursor) is None:
+        return [], set()                 # no context: nothing is completed (complete_line would raise by design)
     if cursor == len(line) and "\n" not in line:
         comps, lp = comp.complete_line(line)
     else:
@@ -992,7 +994,8 @@ def analyse(parser, text, cursor, bound=HANG_S):
         raw_before, raw_after = text[:cursor], text[cursor:]
         raw_want = c.opening_quote + c.prefix + (c.closing_quote if c.is_after_closing_quote else "")
         inside_cont = raw_before.endswith("\\") and raw_after[:1] == "\n"
-        ok = raw_before.endswith(raw_want) or strip_cont(raw_before).endswith(strip_cont(raw_want))
+        ok = raw_before.endswith(raw_want) or strip_cont(raw_before).endswith(strip_cont(raw_want)) \
+            or strip_cont(raw_before).endswith(raw_want)
         if not ok and inside_cont:
             # a cursor between the backslash and the newline of a continuation: also accept the reading in
             # which the whole continuation is removed
@@ -1000,7 +1003,8 @@ def analyse(parser, text, cursor, bound=HANG_S):
         if not ok:
             return "prefix", "parse(%r, %d): text before the cursor %r does not end with opening_quote+prefix%s %r (%r)" % (
                 text, cursor, raw_before, "+closing_quote" if c.is_after_closing_quote else "", raw_want, c), info
-        ok = raw_after.startswith(c.suffix) or strip_cont(raw_after).startswith(strip_cont(c.suffix))
+        ok = raw_after.startswith(c.suffix) or strip_cont(raw_after).startswith(strip_cont(c.suffix)) \
+            or strip_cont(raw_after).startswith(c.suffix)
         if not ok and inside_cont:
             ok = strip_cont("\\" + raw_after).startswith(strip_cont(c.suffix))
         if not ok:
@@ -1030,8 +1034,9 @@ def _fstring_newline_shape(text):
 def _classify_b(text, cursor, kind, info):
     """Narrow predicates of the recorded Part B findings, evaluated on the failing (text, cursor).
 
-    C18-F5  the first token of the text is a backslash-newline at column 0 (only blank/comment lines before it):
-            AttributeError in lexer.handle_error_linecont
+    C18-F5  a backslash-newline before any token that sets the lexer's state['last'] (start of the text, after
+            blank/comment lines, after a leading `||` / `&&` / unknown character): AttributeError in
+            lexer.handle_error_linecont
     C18-F6  a word starting with a non-ASCII \\w character that cannot start an identifier (non-ASCII digit,
             superscript, fraction ...): the lexer's 'Unexpected token' message becomes the prefix/suffix
     C18-F7  unterminated single-line f-string followed by a newline: the tolerant tokenizer loops for ever
@@ -1042,7 +1047,7 @@ def _classify_b(text, cursor, kind, info):
     C18-F19 cursor inside a sub-expression opener (`$(` `![` `@(` ...) that directly follows a continuation glued to a
             word: the cursor offset is taken on the unprocessed text, the prefix swallows the rest of the opener
     """
-    if kind.startswith("exception:AttributeError@lexer.py:handle_error_linecont") and _F5_RE.match(text):
+    if kind == "exception:AttributeError@lexer.py:handle_error_linecont" and "\\\n" in text:
         return "C18-F5"
     if kind in ("prefix", "suffix") and _lexmsg_shape(text) and _LEXMSG in (info.get("prefix", "") + info.get("suffix", "")):
         return "C18-F6"
